@@ -1335,7 +1335,7 @@ def r07_6(ctx, rid="R07.6", only=None, floor=3):
                     for e in p.events:
                         if e[0] in ("set", "init") and ("local", e[1]) in locs:
                             touched = True
-                        elif e[0] == "write" and any(x in locs for x in walk(e[1])):
+                        elif e[0] in ("write", "lwrite") and any(x in locs for x in walk(e[1])):
                             touched = True
                         elif e[0] == "call" and any(a in locs for a in e[2]) and e[1].rsplit("::", 1)[1] not in PURE_TESTS:
                             touched = True
